@@ -5,6 +5,7 @@
 #include <djinterop/engine/v2/engine_library.hpp>
 
 #include <algorithm>
+#include <list>
 
 #include "world.hpp"
 #include "tstate.hpp"
@@ -19,6 +20,7 @@ void World::TStateDeleter::operator()(TState* p) const { delete p; }
 
 namespace
 {
+const char* const kOtherDbUuid = "0ddba11e-0000-4000-8000-0000000000db";
 // ---- rendering of row fields
 std::string hexs(const std::vector<std::byte>& b)
 {
@@ -586,48 +588,68 @@ void World::table_check(const std::string& op, int64_t touched)
         Outcome te = call(FaultSpec{}, [&] { tids = et.track_ids(kv.first); });
         if (te.threw)
             report("C09", "C09|" + op + "|v2|entity-listing-threw", te.exc + ": " + te.what);
-        else if (tids != T.ents[kv.first])
+        std::vector<int64_t> exp_tids;
+        for (auto k : T.ents[kv.first])
+            exp_tids.push_back(k < 0 ? -k : k);
+        if (te.threw)
+            ;
+        else if (tids != exp_tids)
         {
-            auto a = tids, b = T.ents[kv.first];
+            auto a = tids, b = exp_tids;
             std::sort(a.begin(), a.end());
             std::sort(b.begin(), b.end());
             report("C09", std::string("C09|") + op + "|v2|" + (a == b ? "entity-order" : "entity-lost-or-duplicated"),
-                   "entities of list " + std::to_string(kv.first) + " = [" + ids_str(tids) + "], expected [" + ids_str(T.ents[kv.first]) + "]");
+                   "entities of list " + std::to_string(kv.first) + " = [" + ids_str(tids) + "], expected [" + ids_str(exp_tids) + "]");
+            if (a != b)
+                report("C18", "C18|" + op + "|" + F + "|entity-set",
+                       "entity rows of list " + std::to_string(kv.first) + " are not the rows written: track ids [" + ids_str(tids) + "], expected [" + ids_str(exp_tids) + "]");
         }
         else
         {
-            // entity rows read back as written (C18): id, list, track, uuid, membership reference; next = successor
+            // entity rows read back as written (C18): id, list, track, database uuid, membership reference; next = successor
             auto& seq = T.ents[kv.first];
-            for (size_t i = 0; i < seq.size(); ++i)
+            std::list<v2::playlist_entity_row> rows;
+            Outcome gl = call(FaultSpec{}, [&] { rows = et.get_for_list(kv.first); });
+            if (gl.threw || rows.size() != seq.size())
+                report("C18", "C18|" + op + "|" + F + "|entity-rows", "get_for_list returns " + (gl.threw ? "an exception" : std::to_string(rows.size()) + " rows") +
+                                                                          " for " + std::to_string(seq.size()) + " entries");
+            else
             {
-                auto er = T.entrow.find({kv.first, seq[i]});
-                if (er == T.entrow.end())
-                    continue;
-                std::optional<v2::playlist_entity_row> got;
-                Outcome ge = call(FaultSpec{}, [&] { got = et.get(kv.first, seq[i]); });
-                if (ge.threw || !got)
+                size_t i = 0;
+                for (auto it = rows.begin(); it != rows.end(); ++it, ++i)
                 {
-                    report("C18", "C18|" + op + "|" + F + "|entity-missing", "playlist_entity_table::get(list, track) finds no row for a listed entry");
-                    continue;
+                    auto er = T.entrow.find({kv.first, seq[i]});
+                    if (er == T.entrow.end())
+                        continue;
+                    const bool foreign = seq[i] < 0;
+                    int64_t exp_next = 0;
+                    if (i + 1 < seq.size())
+                    {
+                        auto nx = T.entrow.find({kv.first, seq[i + 1]});
+                        exp_next = nx != T.entrow.end() ? nx->second.id : -1;
+                    }
+                    if (it->id != er->second.id)
+                        report("C18", "C18|" + op + "|" + F + "|entity-column:id", "entity id differs from the one add_back returned");
+                    if (it->list_id != kv.first || it->track_id != (foreign ? -seq[i] : seq[i]))
+                        report("C18", "C18|" + op + "|" + F + "|entity-column:key", "entity list/track id differs");
+                    if (it->database_uuid != (foreign ? std::string(kOtherDbUuid) : T.uuid))
+                        report("C18", "C18|" + op + "|" + F + "|entity-column:database_uuid", "entity database uuid differs from the value written");
+                    if (it->membership_reference != er->second.mref)
+                        report("C18", "C18|" + op + "|" + F + "|entity-column:membership_reference",
+                               "entity membership_reference reads " + std::to_string(it->membership_reference) + ", written " + std::to_string(er->second.mref));
+                    if (exp_next >= 0 && it->next_entity_id != exp_next)
+                        report("C18", "C18|" + op + "|" + F + "|entity-column:next_entity_id",
+                               "entity next_entity_id = " + std::to_string(it->next_entity_id) + ", expected " + std::to_string(exp_next));
+                    // get(list, track) names the track id only; it is unambiguous when the id occurs once
+                    int64_t tid = foreign ? -seq[i] : seq[i];
+                    if (std::count_if(seq.begin(), seq.end(), [&](int64_t k) { return k == tid || k == -tid; }) == 1)
+                    {
+                        std::optional<v2::playlist_entity_row> got;
+                        Outcome ge = call(FaultSpec{}, [&] { got = et.get(kv.first, tid); });
+                        if (ge.threw || !got || got->id != er->second.id)
+                            report("C18", "C18|" + op + "|" + F + "|entity-get", "playlist_entity_table::get(list, track) does not return the listed entry");
+                    }
                 }
-                int64_t exp_next = 0;
-                if (i + 1 < seq.size())
-                {
-                    auto nx = T.entrow.find({kv.first, seq[i + 1]});
-                    exp_next = nx != T.entrow.end() ? nx->second.id : -1;
-                }
-                if (got->id != er->second.id)
-                    report("C18", "C18|" + op + "|" + F + "|entity-column:id", "entity id differs from the one add_back returned");
-                if (got->list_id != kv.first || got->track_id != seq[i])
-                    report("C18", "C18|" + op + "|" + F + "|entity-column:key", "entity list/track id differs");
-                if (got->database_uuid != T.uuid)
-                    report("C18", "C18|" + op + "|" + F + "|entity-column:database_uuid", "entity database uuid differs from the value written");
-                if (got->membership_reference != er->second.mref)
-                    report("C18", "C18|" + op + "|" + F + "|entity-column:membership_reference",
-                           "entity membership_reference reads " + std::to_string(got->membership_reference) + ", written " + std::to_string(er->second.mref));
-                if (exp_next >= 0 && got->next_entity_id != exp_next)
-                    report("C18", "C18|" + op + "|" + F + "|entity-column:next_entity_id",
-                           "entity next_entity_id = " + std::to_string(got->next_entity_id) + ", expected " + std::to_string(exp_next));
             }
         }
     }
@@ -699,9 +721,13 @@ void World::table_sync_from_db()
         {
             auto kids = pt.child_ids(kv.first);
             T.order[kv.first].assign(kids.begin(), kids.end());
-            T.ents[kv.first] = et.track_ids(kv.first);
+            T.ents[kv.first].clear();
             for (auto& row : et.get_for_list(kv.first))
-                T.entrow[{kv.first, row.track_id}] = {row.id, row.membership_reference};
+            {
+                int64_t key = row.database_uuid == T.uuid ? row.track_id : -row.track_id;
+                T.ents[kv.first].push_back(key);
+                T.entrow[{kv.first, key}] = {row.id, row.membership_reference};
+            }
         }
     });
     if (o.threw)
@@ -773,9 +799,27 @@ bool World::exec_table_op(const Step& s)
     if (s.op == "t_add")
     {
         auto row = gen_row(s.vseed, s.size, ++T.rowuniq, hostile);
+        // one add in ten collides with an existing row on a UNIQUE key (path, or origin uuid + origin id): it must be
+        // refused and change nothing - in particular it must not displace the earlier row
+        bool collide = !atomic && !T.rows.empty() && (arg(2) % 10) == 0;
+        if (collide)
+        {
+            auto& victim = T.rows[pick(T.rows, arg(3))];
+            if (arg(2) % 20 == 0)
+                row.path = victim.path;
+            else
+            {
+                row.origin_database_uuid = victim.origin_database_uuid;
+                row.origin_track_id = victim.origin_track_id;
+            }
+            probes.hit("t_add_colliding");
+        }
         int64_t id = 0;
         Outcome o = call(s.fault, [&] { id = tt.add(row); });
         note("t_add -> " + (o.threw ? "threw " + o.exc + ": " + o.what : "id " + std::to_string(id)));
+        if (!o.threw && collide)
+            report("C18", "C18|t_add|" + F + "|unique-collision-accepted",
+                   "add() of a row whose path or origin key equals that of an existing row returned normally");
         if (!o.threw)
         {
             if (T.rows.count(id))
@@ -834,6 +878,7 @@ bool World::exec_table_op(const Step& s)
             T.rows.erase(id);
             for (auto& kv : T.ents)
             {
+                // entries naming this id in another database are not this track's
                 kv.second.erase(std::remove(kv.second.begin(), kv.second.end(), id), kv.second.end());
                 T.entrow.erase({kv.first, id});
             }
@@ -1067,19 +1112,32 @@ bool World::exec_table_op(const Step& s)
         if (s.op == "e_add")
         {
             int64_t mref = (arg(2) % 3 == 0) ? 0 : 70000 + (int64_t)r.below(1000);
-            v2::playlist_entity_row row{v2::PLAYLIST_ENTITY_ROW_ID_NONE, l, t, T.uuid, (arg(2) & 4) ? 12345 : 0, mref};
+            // entries are keyed by (list, database uuid, track): one in eight names the same track id in ANOTHER database
+            // (model key: the negated track id)
+            const bool foreign = !atomic && (arg(2) & 8) && (arg(3) & 1);
+            if (foreign && !mem.empty() && (arg(3) & 2))
+            {
+                // prefer a track id the list already holds for the other database: same (list, track), different uuid
+                int64_t k = mem[(size_t)((uint64_t)arg(1) % mem.size())];
+                t = k < 0 ? -k : k;
+            }
+            const int64_t key = foreign ? -t : t;
+            v2::playlist_entity_row row{v2::PLAYLIST_ENTITY_ROW_ID_NONE, l, t, foreign ? kOtherDbUuid : T.uuid, (arg(2) & 4) ? 12345 : 0, mref};
             int64_t eid = 0;
             o = call(s.fault, [&] { eid = et.add_back(row); });
-            note("e_add list " + std::to_string(l) + " track " + std::to_string(t) + (o.threw ? " -> threw " + o.exc : " -> ok"));
-            if (!o.threw && std::find(mem.begin(), mem.end(), t) == mem.end())
+            note("e_add list " + std::to_string(l) + " track " + std::to_string(t) + (foreign ? " (other database)" : "") +
+                 (o.threw ? " -> threw " + o.exc : " -> ok"));
+            if (foreign)
+                probes.hit("e_add_other_database");
+            if (!o.threw && std::find(mem.begin(), mem.end(), key) == mem.end())
             {
-                mem.push_back(t);
-                T.entrow[{l, t}] = {eid, mref};
+                mem.push_back(key);
+                T.entrow[{l, key}] = {eid, mref};
             }
             else if (!o.threw && !atomic)
             {
                 // already present: the existing entity's id is returned and nothing changes
-                auto it = T.entrow.find({l, t});
+                auto it = T.entrow.find({l, key});
                 if (it != T.entrow.end() && it->second.id != eid)
                     report("C18", "C18|e_add|" + F + "|duplicate-id", "add_back of an existing entry returned another id");
             }
@@ -1091,8 +1149,11 @@ bool World::exec_table_op(const Step& s)
             note("e_remove list " + std::to_string(l) + " track " + std::to_string(t) + (o.threw ? " -> threw " + o.exc : " -> ok"));
             if (!o.threw)
             {
+                // remove(list, track) names the track id only: entries of every database go
                 mem.erase(std::remove(mem.begin(), mem.end(), t), mem.end());
+                mem.erase(std::remove(mem.begin(), mem.end(), -t), mem.end());
                 T.entrow.erase({l, t});
+                T.entrow.erase({l, -t});
             }
         }
         finish(s.op, o, 0);
